@@ -311,7 +311,9 @@ theorem addDirect_inv (q : Q) (out : List Chain) (ins outs : List Buf) (h : InvO
     (hcap : q.numUsed + (ins.length + outs.length) ≤ q.n) :
     ∃ q3 c evs, addDirect q ins outs = some (q3, c, evs) ∧ InvO q3 (out ++ [c]) ∧ Frame q q3
       ∧ c.head = q.freeHead ∧ c.table = none ∧ c.ins = ins ∧ c.outs = outs ∧ c.firstShare = q.shareCtr
-      ∧ c.descs.length = ins.length + outs.length ∧ q3.shareCtr = q.shareCtr + (ins.length + outs.length) := by
+      ∧ c.descs.length = ins.length + outs.length ∧ q3.shareCtr = q.shareCtr + (ins.length + outs.length)
+      ∧ q3.nextFn = q.nextFn ∧ q3.numUsed = q.numUsed + (ins.length + outs.length)
+      ∧ (∀ a rest, Linked q.nextFn q.freeHead (a :: rest) → ins.length + outs.length = 1 → q3.freeHead = q.nextFn a) := by
   obtain ⟨free, hl, hnd, hlt, hlen⟩ := h.free
   have hk' : (tagBufs ins outs).length ≤ free.length := by
     rw [tagBufs_length]
@@ -445,7 +447,17 @@ theorem addDirect_inv (q : Q) (out : List Chain) (ins outs : List Buf) (h : InvO
       rw [e8]
       refine h.stale i (by rw [← hn1]; exact hi) (fun c hc => hno c (by simp [hc]))
   · exact Frame.trans e6 (by constructor <;> rfl)
-  · show q1.shareCtr = _; rw [e10]
+  · refine ⟨by show q1.shareCtr = _; rw [e10], hn3, by show q1.numUsed + k = _; rw [e7], ?_⟩
+    intro a rest hla hk1
+    show q1.freeHead = _
+    rw [e3, hk1]
+    -- the free list starts with `a`
+    match free, hl, htk, hk1 with
+    | b :: fr, hl, _, _ =>
+      have hb : b = a := by rw [← hl.1, hla.1]
+      subst hb
+      simp [after]
+    | [], _, htk, hk1 => simp [hk1] at htk
 
 /-! ### `add_indirect` preserves the invariant -/
 
